@@ -1330,7 +1330,8 @@ def gen_mega_cases(ctx, side, quick):
         ends = list(itertools.accumulate(len(f) for f in frames))
         L, b0 = ends[-1], (ends[len(pre) - 1] if pre else 0)
         modes = ['one-segment', '64k-back-to-back', 'megabyte-then-paced']
-        for mode in ([rng.choice(modes[:2] * 2 + modes[2:])] if quick else modes + ['paced']):
+        # (quick: one delivery per stream; the stream beyond 4 MiB always as a backlog of its full size)
+        for mode in ([rng.choice(modes[:2] * 2 + (modes[2:] if total < 4 * MIB else []))] if quick else modes + ['paced']):
             if mode == 'one-segment':
                 cuts, polls = [], [1]
             elif mode == '64k-back-to-back':
